@@ -12,14 +12,14 @@ def rootKindP (h0 : Heap) : Plan → Option Nat
 
 def rootFrozenP (h0 : Heap) : Plan → Prop
   | .ref a => ∃ o : Obj, h0[a]? = some o ∧ Frozen o
-  | .node m sc _ => m = false ∨ sc.kind = 10
+  | .node m _ _ => m = false
 
 mutual
 /-- a plan whose allocation keeps closure of immutability, classes and typing -/
 def GoodX (h0 : Heap) : Plan → Prop
   | .ref a => a < h0.length
   | .node m sc kids =>
-      (sc.alwaysImm = true → sc.kind ≠ 10 → m = false) ∧
+      (sc.alwaysImm = true → m = false) ∧
       (m = false → ∀ k ∈ kids, rootFrozenP h0 k) ∧
       (∃ ks, mapO (rootKindP h0) kids = some ks ∧ refKindsOK sc ks) ∧
       GoodXL h0 kids
@@ -70,14 +70,14 @@ theorem immClosedX_append_one {h : Heap} {o : Obj} (hic : ImmClosedX h)
     exact ⟨oc, getElem?_append_of_some _ hoc, hfr⟩
 
 theorem kindOKX_append_one {h : Heap} {o : Obj} (hk : KindOKX h)
-    (ho : o.sc.alwaysImm = true → o.sc.kind ≠ 10 → o.isMut = false) : KindOKX (h ++ [o]) := by
-  intro a oa hoa hai h10
+    (ho : o.sc.alwaysImm = true → o.isMut = false) : KindOKX (h ++ [o]) := by
+  intro a oa hoa hai
   by_cases ha : a < h.length
-  · rw [List.getElem?_append_left ha] at hoa; exact hk a oa hoa hai h10
+  · rw [List.getElem?_append_left ha] at hoa; exact hk a oa hoa hai
   · have hlen : a < h.length + 1 := by simpa using (List.getElem?_eq_some_iff.mp hoa).1
     have : a = h.length := Nat.le_antisymm (Nat.lt_succ_iff.mp hlen) (Nat.not_lt.mp ha)
     subst this
-    simp at hoa; subst hoa; exact ho hai h10
+    simp at hoa; subst hoa; exact ho hai
 
 structure ResX (h0 h : Heap) (p : Plan) (r : Heap × Addr) : Prop where
   ext : ∃ e, r.1 = h ++ e ∧ ∀ o ∈ e, o.cHash = none ∧ o.cPy = none
